@@ -19,6 +19,7 @@ CONSTANTS
   UseSelf = FALSE
   FundAcct2 = FALSE
   UseBuild = TRUE
+  NChanges = {1}
   UseDiverge = FALSE
   UseAdv = FALSE
 SPECIFICATION Spec
